@@ -95,7 +95,9 @@ def run_case(case, client_obj=None, extra_kwargs=None, want_client=False, omit_m
         out["exc"] = (type(e).__name__, str(e)[:500])
         import traceback
 
-        out["tb"] = traceback.format_exc()[-1500:]
+        tb = traceback.format_exc()
+        out["tb"] = tb[-1500:]
+        out["tb_frames"] = [ln.strip() for ln in tb.splitlines() if "elexmodel" in ln][-8:]
     if want_client:
         out["client"] = mc
     return out
